@@ -35,6 +35,13 @@ def main(argv):
         sys.path.append(deps)
     sys.setrecursionlimit(3000)
     try:
+        import faulthandler
+        import signal
+
+        faulthandler.register(signal.SIGUSR1, all_threads=True)  # kill -USR1 <pid> shows where a run is
+    except Exception:
+        pass
+    try:
         seed = int(os.environ.get("VERIF_SEED", "1"))
     except ValueError:
         seed = 1
